@@ -20,6 +20,7 @@ def match(known: List[Dict[str, Any]], prop: str, f: Finding) -> Optional[Dict[s
     for e in known:
         if e.get("status") != "open":
             continue
-        if e.get("property") == prop and e.get("class") == f.klass:
+        klass = e.get("class")
+        if e.get("property") == prop and (klass == f.klass or (isinstance(klass, list) and f.klass in klass)):
             return e
     return None
